@@ -4,7 +4,6 @@
 package racepass
 
 import (
-	"fmt"
 	"sort"
 	"strings"
 
@@ -115,13 +114,13 @@ func Worker(c *evid.Ctx, items []Item) map[string]*Found {
 		c.Count("race_transitions", int64(st.Steps))
 	}
 	var ks []string
-	for k, n := range ignored {
-		ks = append(ks, fmt.Sprintf("%s x%d", k, n))
+	for k := range ignored {
+		if strings.Contains(k, ".func") {
+			continue // closures of the harness scenario itself
+		}
+		ks = append(ks, k)
 	}
 	sort.Strings(ks)
-	if len(ks) > 12 {
-		ks = append(ks[:12], fmt.Sprintf("... and %d more pairs", len(ks)-12))
-	}
 	if len(ks) > 0 {
 		c.Info("race reports not between two library functions (harness/shim bookkeeping, ignored): %s", strings.Join(ks, "; "))
 	}
